@@ -71,6 +71,8 @@ def gen_io(rng, tier):
         if len(par[v]) < 3:
             par[v].append(u)
     card = [rng.choice([1, 2, 2, 3, 3, 4, 5]) for _ in range(n)]
+    if rng.random() < .2:
+        card[rng.randrange(n)] = rng.choice([10, 11, 12, 20])      # two-digit cardinalities sort differently as strings
     huge = tier == "thorough" and rng.random() < .03
     labels = []
     for v in range(n):
@@ -204,7 +206,8 @@ def run_io(case, drv):
 # ----------------------------------------------------------------------------- UAI Markov networks
 def gen_uai_mn(rng, tier):
     from harness import mnet
-    case = mnet.gen_mn_case(rng, nmin=2, nmax=4, dup=False, label_kind="int", name_kind="str")
+    case = mnet.gen_mn_case(rng, nmin=2, nmax=4, dup=False, label_kind="int", name_kind="str",
+                            special=rng.choice([None, None, "ten", "one"]))
     used = set()
     case["nodes"] = [ident(rng, used) for _ in case["nodes"]]
     return case
